@@ -1031,11 +1031,14 @@ Definition rd_es_fields : parser (N * N * N * list N * N) :=
   pret (esid, fl, dep, url, ocr).
 
 (* DecodeEsdsSR: versionAndFlags, DecodeESDescriptor (descSize is not used by the Go code), sr.AccError().
-   Fuel: the announced box size bounds nesting depth and loop counts of everything inside the box. *)
+   Fuel: nesting depth and loop counts are bounded by half the number of bytes the reader can reach; the decoder may
+   read beyond the box (a descriptor can announce more than the box holds), so the fuel is the announced box size plus
+   65536 -- enough for every slice below 128 KiB, the same in a second decode of the re-encoded box (the header is
+   the same), and OutOfFuel is a separate outcome that the theorems exclude. *)
 Definition dec_esds (h : hdr) : parser (leaf * rsvT) :=
   pdo vf <- rd 4 ;;
   fun bs =>
-    let F := S (N.to_nat (h_size h)) in
+    let F := S (N.to_nat (h_size h + 65536)) in
     let dd := dec_desc F in
     match bs with
     | [] => Err
